@@ -25,4 +25,7 @@ def check(run):
     from checks.main import reflection_bounded, splitoff_bounded
     reflection_bounded(run)
     splitoff_bounded(run)
+    from checks.main import crosscheck_bounded
+    crosscheck_bounded(run, 'yatiml/constructors.py::Constructor.'
+                       '__type_matches', {'obj': 'PyV', 'type_': 'Ty'})
     run.verify_functions(RECOGNIZER + LOADER + STRIP + CONSTR)
